@@ -295,8 +295,8 @@ def ev_cov(case, rec):
 
 
 SUBCHECKS = [
-    Sub('grid', gen, ev, chunk=2, floor=500, guard=True),
-    Sub('covariance', gen_cov, ev_cov, chunk=1, floor=50, guard=True),
+    Sub('grid', gen, ev, chunk=2, floor=500, guard=True, envs=4),
+    Sub('covariance', gen_cov, ev_cov, chunk=1, floor=50, guard=True, envs=2),
 ]
 
 
